@@ -339,7 +339,8 @@ def _run(ctx, nmat, maxsites, nperl):
     scratch_parent = '/tmp'
     narch = 0
     for kind, name, crys, chem in todo:
-        if time.time() - t_start > (40 if ctx.quick else 1000): break
+        el = time.time() - t_start
+        if (ctx.quick and ((el > 40 and narch >= 14) or el > 85)) or (not ctx.quick and el > 1000): break
         with warnings.catch_warnings():
             warnings.simplefilter('ignore')
             calc = c27zoo.interstitial_calc(name, crys, chem) if kind == 'I' else c27zoo.vacancy_calc(name, crys, chem, 1)
